@@ -1405,7 +1405,7 @@ proof {
 }
 let ghost tm = transitions@;
 """),
-        LoopSpec('while changed {', """
+        LoopSpec('while $_ {', """
 invariant
     d == dfa, tm == transitions@, tm_ok(d, tm), d_wf(d), n == d.states@.len(),
     part_ok(pv(partition_old@), n), acc_homog(d, pv(partition_old@)), partition_old@.len() <= n + 1,
